@@ -12,8 +12,14 @@ import random, subprocess, sys, os, re
 seed = int(sys.argv[1]) if len(sys.argv) > 1 else 1
 n = int(sys.argv[2]) if len(sys.argv) > 2 else 300
 R = random.Random(seed)
-UKINDS = [("KNs", "None"), ("KNs", "None"), ("KPlain", "(Some 0)"), ("KPlain", "(Some 1)"), ("KPlain", "(Some 1)"), ("KPlain", "None"), ("KPlain", "None"), ("KNs", "None")]
-NID = 8
+# (kind, namespace object, CRD object): two namespaces, two CRDs, a built-in object, three custom resources, a namespace
+UKINDS = [("KNs", "None", "None"), ("KNs", "None", "None"), ("KCrd", "None", "None"), ("KCrd", "None", "None"),
+          ("KPlain", "(Some 0)", "None"), ("KPlain", "(Some 1)", "(Some 2)"), ("KPlain", "None", "(Some 3)"),
+          ("KPlain", "(Some 0)", "(Some 2)"), ("KNs", "None", "None")]
+CRD_OF = {5: 2, 6: 3, 7: 2}
+NID = 9
+# DYN_WF = crd (default): the boolean WF filter also requires "a custom resource in the cluster has its CRD in the cluster"
+DYN_WF = os.environ.get("DYN_WF", "crd")
 FIN_P = float(os.environ.get("FIN_P", "0.3"))
 FIN_CLAUSE = os.environ.get("FIN_CLAUSE", "full")
 FIN_WF = os.environ.get("FIN_WF", "full")
@@ -25,11 +31,13 @@ def gen():
     # universe: ~FIN_P of the entries are held by a finalizer
     fin = [R.random() < FIN_P for _ in range(NID)]
     focus = R.random() < 0.4     # prune-heavy profile: many tracked objects leave the apply set, no dry-run, few faults
-    univ = "[" + "; ".join("mkUF %s %s None %s" % (k, ns, b(f)) for (k, ns), f in zip(UKINDS, fin)) + "]"
+    univ = "[" + "; ".join("mkUF %s %s %s %s" % (k, ns, crd, b(f)) for (k, ns, crd), f in zip(UKINDS, fin)) + "]"
     # cluster
     uid_of = {}
     objs = []
     exist = [i for i in range(NID - 1) if R.random() < 0.5]
+    if R.random() < 0.8:   # mostly: a custom resource exists only with its CRD (a real server guarantees it)
+        exist = [i for i in exist if i not in CRD_OF or CRD_OF[i] in exist]
     uid = 10
     tracked = []
     for i in exist:
@@ -53,10 +61,13 @@ def gen():
     destroy = R.random() < 0.25
     locs = []
     lids = [i for i in range(NID) if R.random() < (0.2 if focus else 0.5)]
+    if R.random() < 0.35:   # CRD and custom resource in one apply set (the mapper learns the kind at the end of the CRD's wait)
+        k = R.choice([2, 3])
+        lids = sorted(set(lids) | {k} | {i for i, c in CRD_OF.items() if c == k and R.random() < 0.8})
     for i in lids:
         deps = [d for d in range(NID) if d != i and R.random() < (0.2 if d in lids else 0.03)]
         if R.random() < 0.05 and deps: deps.append(deps[0])
-        locs.append("mkL %d %s %s %s %s %d" % (i, nl(deps), b(R.random() < 0.04), b(i == 7 or R.random() < 0.04), b(R.random() < 0.1), R.randint(1, 2)))
+        locs.append("mkL %d %s %s %s %s %d" % (i, nl(deps), b(R.random() < 0.04), b(i == NID - 1 or R.random() < 0.04), b(R.random() < 0.1), R.randint(1, 2)))
     dry = "DNone" if focus else R.choice(["DNone"] * 4 + ["DClient", "DServer"])
     opts = "mkO %s %s %s %s %s %s %s %s %s %s %s" % (
         b(destroy), b(destroy or focus or R.random() < 0.8), R.choice(["PMustMatch", "PAdoptIfNoInventory", "PAdoptAll"]), dry,
@@ -109,6 +120,9 @@ Definition wfb (sc : scenario) (c0 : cluster) : bool :=
   && match sc_inv_ns sc, inv c0 with Some n, Some l => memn n (map c_id (objs c0)) || memn n l | _, _ => true end
   && (negb (o_destroy (sc_opts sc)) || o_prune (sc_opts sc))
   && forallb (fun w => forallb (fin_ok sc c0) (w_deliv w)) (e_waits (sc_env sc)).
+(* a custom resource in the cluster has its CRD in the cluster *)
+Definition crd_ok (sc : scenario) (c0 : cluster) : bool :=
+  forallb (fun c => match u_crd (uinfo_of sc (c_id c)) with Some k => memn k (map c_id (objs c0)) | None => true end) (objs c0).
 Definition kf_patternb (prev : list id) (t : list item) : bool :=
   existsb (fun it =>
     match it with
@@ -121,7 +135,7 @@ Definition kf_patternb (prev : list id) (t : list item) : bool :=
     | _ => false
     end) t.
 Definition okb (sc : scenario) (c0 : cluster) (out : outcome) : bool :=
-  %s && negb (kf_patternb (prev_of c0) (out_trace out)).
+  %s && %s && negb (kf_patternb (prev_of c0) (out_trace out)).
 Definition cases : list (cluster * scenario) := [
 %s
 ].
@@ -150,10 +164,21 @@ Definition stats := Eval vm_compute in
                     existsb (fun it => match it with IReq (RDelete i _ _) true _ _ => u_fin (uinfo_of sc i) | _ => false end) (out_trace out)
                     && existsb (fun it => match it with IEv (EStarted (GInvSet, 0)) => true | _ => false end) (out_trace out)) cases)).
 Print stats.
+Definition crd_absent (sc : scenario) (c : cluster) (i : id) : bool :=
+  match u_crd (uinfo_of sc i) with Some k => negb (memn k (map c_id (objs c))) | None => false end.
+Definition dstats := Eval vm_compute in
+  (length (filter (fun p => let '(c, sc) := p in okb sc c (run sc c) &&
+                    existsb (fun it => match it with IEv (EApply _ i AOk) => crd_absent sc c i | _ => false end) (out_trace (run sc c))) cases),
+   length (filter (fun p => let '(c, sc) := p in okb sc c (run sc c) &&
+                    existsb (fun it => match it with IEv (EApply _ i AFail) => crd_absent sc c i | _ => false end) (out_trace (run sc c))) cases),
+   length (filter (fun p => let '(c, sc) := p in okb sc c (run sc c) &&
+                    existsb (fun it => match it with IEv (EValidation l) => existsb (crd_absent sc c) l | _ => false end) (out_trace (run sc c))) cases),
+   length (filter (fun p => let '(c, sc) := p in okb sc c (run sc c) && existsb (crd_absent sc c) (prev_of c)) cases)).
+Print dstats.
 """ % (b(FIN_WF == "none"), b(FIN_WF != "full"),
        # full: the official boolean WF of Corr/CorrPipeline.v (wf_b_spec: wf_b sc c0 = true <-> WF sc c0)
-       "wf_b sc c0" if FIN_WF == "full" else "wfb sc c0", ";\n".join(cases))
-d = "/tmp/modelfuzz_fin_%d" % seed
+       "wf_b sc c0" if FIN_WF == "full" else "wfb sc c0", "crd_ok sc c0" if DYN_WF == "crd" else "true", ";\n".join(cases))
+d = "/tmp/modelfuzz_dyn_%d" % seed
 os.makedirs(d, exist_ok=True)
 open(d + "/f.v", "w").write(src)
 p = subprocess.run(["coqc", "-Q", THEORIES, "CliUtils", "f.v"], cwd=d, capture_output=True, text=True)
@@ -169,4 +194,6 @@ for m in re.finditer(r"\((\d+), \[([a-z; ]+)\], \[([a-z; ]+)\]\)", flat):
         print(re.sub(r"mkW \[[^\]]*\] W\w+", "mkW..", cases[int(m.group(1))]))
 m = re.search(r"stats = \((\d+), (\d+), (\d+)\)", flat)
 if m: print("WF+kf_free first runs: %s/%d; runs with an accepted DELETE of a finalizer-held object: %s (of which reach inventory-set: %s)" % (m.group(1), n, m.group(2), m.group(3)))
+m = re.search(r"dstats = \((\d+), (\d+), (\d+), (\d+)\)", flat)
+if m: print("dynamic kinds (WF first runs): CR applied ok with its CRD absent before the run: %s; CR apply failed (CRD absent): %s; validation error naming such a CR: %s; tracked id of unknown kind: %s" % m.groups())
 print("done", n)
